@@ -329,3 +329,238 @@ func (i *interpreter) genericValue(g interface{}) value {
 	}
 	panic(engErr("genericValue of %T", g))
 }
+
+// ---- Marshal: engine value -> generic -> real yaml/json encoder
+
+func init() {
+	intrinsics["sigs.k8s.io/yaml.Marshal"] = func(fr *frame, args []value) value {
+		g, e := fr.i.toGeneric(fr, args[0].(iface).t, args[0].(iface).v, 0)
+		if e != "" {
+			return tuple{[]value(nil), fr.i.mkError(e)}
+		}
+		jb, err := json.Marshal(g)
+		if err != nil {
+			return tuple{[]value(nil), fr.i.mkError(err.Error())}
+		}
+		yb, err := yaml.JSONToYAML(jb)
+		if err != nil {
+			return tuple{[]value(nil), fr.i.mkError(err.Error())}
+		}
+		return tuple{bytesOf(string(yb)), iface{}}
+	}
+	intrinsics["encoding/json.Marshal"] = func(fr *frame, args []value) value {
+		g, e := fr.i.toGeneric(fr, args[0].(iface).t, args[0].(iface).v, 0)
+		if e != "" {
+			return tuple{[]value(nil), fr.i.mkError(e)}
+		}
+		jb, err := json.Marshal(g)
+		if err != nil {
+			return tuple{[]value(nil), fr.i.mkError(err.Error())}
+		}
+		return tuple{bytesOf(string(jb)), iface{}}
+	}
+}
+
+type omitted struct{}
+
+func isEmptyValue(v value) bool {
+	switch v := v.(type) {
+	case bool:
+		return !v
+	case string:
+		return v == ""
+	case *value:
+		return v == nil
+	case []value:
+		return len(v) == 0
+	case *omap:
+		return v.len() == 0
+	case iface:
+		return v.t == nil
+	case float64:
+		return v == 0
+	case float32:
+		return v == 0
+	}
+	if _, ok := kindOf(v); ok {
+		if _, sym := v.(symI); sym {
+			return false
+		}
+		return asInt64(v) == 0
+	}
+	return false
+}
+
+// toGeneric converts an engine value of static type t into the generic form the
+// real encoder accepts. Symbolic leaves are an engine error.
+func (i *interpreter) toGeneric(fr *frame, t types.Type, v value, depth int) (interface{}, string) {
+	if depth > 40 {
+		return nil, "engine encoder: too deep"
+	}
+	if t == nil {
+		return nil, ""
+	}
+	// custom marshalers (metav1.Time and friends)
+	if _, isItf := t.Underlying().(*types.Interface); !isItf {
+		if hasMethod(i, t, "MarshalJSON", 0, "") || hasMarshalJSON(i, t) {
+			if p, ok := v.(*value); ok && p == nil {
+				return nil, ""
+			}
+			r, ok := i.callMethod(fr, t, v, "MarshalJSON")
+			if ok {
+				tup := r.(tuple)
+				if e := tup[1].(iface); e.t != nil {
+					return nil, "MarshalJSON failed"
+				}
+				s, conc := mkStr(tup[0].([]value)).(string)
+				if !conc {
+					return nil, "engine encoder: symbolic MarshalJSON output"
+				}
+				var g interface{}
+				if err := json.Unmarshal([]byte(s), &g); err != nil {
+					return nil, err.Error()
+				}
+				return g, ""
+			}
+		}
+	}
+	switch u := t.Underlying().(type) {
+	case *types.Basic:
+		if isSym(v) {
+			return nil, "engine encoder: symbolic scalar (cut this Marshal call in the harness)"
+		}
+		switch x := v.(type) {
+		case string:
+			return x, ""
+		case bool:
+			return x, ""
+		case float64:
+			return x, ""
+		case float32:
+			return float64(x), ""
+		}
+		if k, ok := kindOf(v); ok {
+			if kindSigned(k) {
+				return asInt64(v), ""
+			}
+			return uint64(asInt64(v)), ""
+		}
+	case *types.Pointer:
+		p, _ := v.(*value)
+		if p == nil {
+			return nil, ""
+		}
+		return i.toGeneric(fr, u.Elem(), *p, depth+1)
+	case *types.Interface:
+		itf := v.(iface)
+		if itf.t == nil {
+			return nil, ""
+		}
+		return i.toGeneric(fr, itf.t, itf.v, depth+1)
+	case *types.Slice:
+		sl, _ := v.([]value)
+		if sl == nil {
+			return nil, ""
+		}
+		if b, ok := u.Elem().Underlying().(*types.Basic); ok && b.Kind() == types.Uint8 {
+			s, conc := mkStr(sl).(string)
+			if !conc {
+				return nil, "engine encoder: symbolic bytes"
+			}
+			return []byte(s), ""
+		}
+		out := make([]interface{}, len(sl))
+		for k := range sl {
+			g, e := i.toGeneric(fr, u.Elem(), sl[k], depth+1)
+			if e != "" {
+				return nil, e
+			}
+			out[k] = g
+		}
+		return out, ""
+	case *types.Map:
+		m, _ := v.(*omap)
+		if m == nil {
+			return nil, ""
+		}
+		out := map[string]interface{}{}
+		for _, e := range m.live() {
+			ks, ok := e.key.(string)
+			if !ok {
+				return nil, "engine encoder: non-string or symbolic map key"
+			}
+			g, er := i.toGeneric(fr, u.Elem(), e.val, depth+1)
+			if er != "" {
+				return nil, er
+			}
+			out[ks] = g
+		}
+		return out, ""
+	case *types.Struct:
+		out := map[string]interface{}{}
+		if e := i.structToGeneric(fr, u, v.(structure), out, depth); e != "" {
+			return nil, e
+		}
+		return out, ""
+	}
+	return nil, "engine encoder: unsupported type " + t.String()
+}
+
+func hasMarshalJSON(i *interpreter, t types.Type) bool {
+	ms := i.prog.MethodSets.MethodSet(t)
+	for k := 0; k < ms.Len(); k++ {
+		if ms.At(k).Obj().Name() == "MarshalJSON" {
+			return true
+		}
+	}
+	return false
+}
+
+func (i *interpreter) structToGeneric(fr *frame, u *types.Struct, st structure, out map[string]interface{}, depth int) string {
+	for k := 0; k < u.NumFields(); k++ {
+		f := u.Field(k)
+		if !f.Exported() && !f.Embedded() {
+			continue
+		}
+		tag := reflect.StructTag(u.Tag(k)).Get("json")
+		if tag == "-" {
+			continue
+		}
+		name, opts := tag, ""
+		if c := strings.Index(tag, ","); c >= 0 {
+			name, opts = tag[:c], tag[c+1:]
+		}
+		if f.Embedded() && name == "" {
+			ft := f.Type()
+			if p, ok := ft.Underlying().(*types.Pointer); ok {
+				pv, _ := st[k].(*value)
+				if pv == nil {
+					continue
+				}
+				if es, ok := p.Elem().Underlying().(*types.Struct); ok {
+					if e := i.structToGeneric(fr, es, (*pv).(structure), out, depth+1); e != "" {
+						return e
+					}
+					continue
+				}
+			} else if es, ok := ft.Underlying().(*types.Struct); ok && !hasMarshalJSON(i, ft) {
+				if e := i.structToGeneric(fr, es, st[k].(structure), out, depth+1); e != "" {
+					return e
+				}
+				continue
+			}
+		}
+		if name == "" {
+			name = f.Name()
+		}
+		if strings.Contains(opts, "omitempty") && isEmptyValue(st[k]) {
+			continue
+		}
+		g, e := i.toGeneric(fr, f.Type(), st[k], depth+1)
+		if e != "" {
+			return e
+		}
+		out[name] = g
+	}
+	return ""
+}
